@@ -15,7 +15,7 @@ run_one() {
   local key; key=$(echo "$log" | grep -m1 '^  key=' | sed 's/^  key=//')
   echo "| $(basename $(dirname $patch))/$(basename $patch) | $prop | ${verdict:-?} | \`${key}\` |"
 }
-for p in mutants/*.patch; do
+for p in mutants/*.patch mutants/selftest/*.patch; do
   prop=$(basename $p | cut -c1-3 | tr a-z A-Z)
   run_one $p $prop >> $OUT.tmp
 done
